@@ -146,7 +146,7 @@ func (c12Engine) Gen(r *core.Rand, tier string, i int) any {
 	sc.ArgvRuntime = len(sc.Args) > 0 && r.Chance(1, 3)
 	sc.Stdin = core.Bytes("s1\ns2\ns3\n")
 	if sc.CustomOpen && r.Chance(1, 6) {
-		sc.Faults = map[string]string{core.Pick(r, []string{"out1", "in1", "out2"}): core.Pick(r, []string{"enoent", "eacces", "devfull", "readonly"})}
+		sc.Faults = map[string]string{core.Pick(r, []string{"out1", "in1", "out2"}): core.Pick(r, []string{"enoent", "eacces", "devfull", "readonly", "emfile", "emfile"})}
 	}
 	return sc
 }
@@ -627,6 +627,25 @@ func (e c12Engine) Run(scAny any, keep bool) (out core.Outcome) {
 					return fail("stdin-dash-wrong-data", fmt.Sprintf("getline < \"-\" returned %q", st.vals[k]))
 				}
 			}
+		}
+	}
+	// "standard input, including under the name '-', stays available": an operand list of "-",
+	// empty strings and assignments is no file read at all
+	onlyStdinOperands := len(sc.Args) > 0
+	for _, a := range sc.Args {
+		if a != "-" && a != "" && a != "v=1" {
+			onlyStdinOperands = false
+		}
+	}
+	if sc.NoFileReads && onlyStdinOperands && res.Err != nil && !forbiddenStarted {
+		incomplete := false
+		for _, k := range st.marks {
+			if _, ok := st.dones[k]; !ok {
+				incomplete = true
+			}
+		}
+		if !incomplete && len(sc.Faults) == 0 {
+			return fail("stdin-operand-refused", fmt.Sprintf("NoFileReads is set and the operands %q name no file, yet the run failed: %v", sc.Args, res.Err))
 		}
 	}
 	// stdin stays available under NoFileReads: if the main loop ran on stdin it saw its records
